@@ -87,6 +87,26 @@ func (c *Configuration) UpstreamSchema() (*ast.Document, error) {
 	return c.schemaConfiguration.upstreamSchemaAst, nil
 }
 
+// upstreamSchemaCopy parses the upstream schema once more and returns a document the caller owns.
+// UpstreamSchema hands out the one document all planners of the data source share, which must not
+// be modified. Only the plain (non federation) schema is supported, which is all replaceQueryType needs.
+func (c *Configuration) upstreamSchemaCopy() (*ast.Document, error) {
+	if c.IsFederationEnabled() {
+		return nil, errors.New("upstream schema copy is not supported for federation")
+	}
+	definition := ast.NewSmallDocument()
+	report := &operationreport.Report{}
+	definition.Input.ResetInputString(c.schemaConfiguration.upstreamSchema)
+	astparser.NewParser().Parse(definition, report)
+	if report.HasErrors() {
+		return nil, fmt.Errorf("unable to parse upstream schema: %w", report)
+	}
+	if err := asttransform.MergeDefinitionWithBaseSchema(definition); err != nil {
+		return nil, fmt.Errorf("unable to merge upstream schema with base schema: %w", err)
+	}
+	return definition, nil
+}
+
 func (c *Configuration) IsFederationEnabled() bool {
 	return c.schemaConfiguration.federation != nil && c.schemaConfiguration.federation.Enabled
 }
